@@ -596,7 +596,9 @@ func genC14Progs() (string, string) {
 		}
 		fmt.Fprintf(&b, ",\n  (%s, %s)", leanStr("utils."+n), leanStr(s))
 	}
-	b.WriteString("]\n\nend CV.Gen.C14Progs\n")
+	b.WriteString("]\n\n")
+	c14GenApply(g, &b)
+	b.WriteString("end CV.Gen.C14Progs\n")
 	fmt.Fprintf(logw, "c14 programs: %d skeletons (%d unknown statements), %d mirrored sources\n", len(names), unknown, len(texts)+1)
 	return "C14Progs.lean", b.String()
 }
